@@ -2,3 +2,5 @@ import H2.Base
 import H2.Driver
 import H2.Props.C15
 import H2.Props.C06
+import H2.Props.C05
+import H2.Props.C16
